@@ -17,3 +17,5 @@ import SpdxVerif.Props.C14
 #print axioms Spdx.C14.orRank_andOfOrs
 #print axioms Spdx.C14.cost_polynomial_in_rank
 #print axioms Spdx.C14.dnf_shaped_quadratic
+#print axioms Spdx.C14.orRank_le_lparens
+#print axioms Spdx.C14.cost_polynomial_in_parens
